@@ -51,7 +51,9 @@ def activate_known(mod, prop, tier, seed, entries, out):
         hit = [b for b in c.buckets if b.split("|")[0] == e["clause"]]
         if hit:
             out.append(f"KNOWN-FINDING: property={prop} {e['id']} {e['title']}")
-            active.append((e["id"], e["clause"], pred))
+            # `clause` names the clause the reproducer fails; with `any_clause` the predicate itself decides which other
+            # clauses of the same cases the recorded deviation explains (e.g. a refusal instead of another value)
+            active.append((e["id"], None if e.get("any_clause") else e["clause"], pred))
     return active
 
 
